@@ -90,5 +90,19 @@ pub fn run() -> i32 {
         }
         return 2;
     }
+    // the hang verdict of the child-process runner: a spinning child and a sleeping child are
+    // both hangs, a child that finishes is not
+    use crate::isolate::{run_child, ChildResult};
+    let budget = std::time::Duration::from_millis(300);
+    let sh = |c: &str| run_child("/bin/sh", &["-c".to_string(), c.to_string()], budget);
+    let spin = sh("while :; do :; done");
+    let sleep = sh("sleep 30");
+    let done = sh("echo ok");
+    let ok = spin == ChildResult::Hang && sleep == ChildResult::Hang && done == ChildResult::Done("ok".into());
+    eprintln!("[SELFTEST] child runner: spinning child {:?}, sleeping child {:?}, finishing child {:?}", spin, sleep, done);
+    if !ok {
+        eprintln!("MACHINERY ERROR: the child-process runner misjudges a hang");
+        return 2;
+    }
     0
 }
